@@ -162,7 +162,7 @@ theorem C06_same_payload_same_reads (tb : Tables) (F : Bytes) (buffered : Bool) 
     (∀ r' e, decodeTiff tb F buffered h = .ok (r', e) → Coh F r' ∧ Exact tb { imageType := h.imageType } F r') ∧
     (∀ r' e, decodeJPEGIfd tb F buffered h = .ok (r', e) → Coh F r' ∧ Exact tb { imageType := h.imageType } F r') ∧
     (∀ r' e, decodeIfd tb (F.drop h.firstIfd) buffered h = .ok (r', e) → Coh F r' ∧ Exact tb { imageType := h.imageType } F r') :=
-  ⟨fun r' e hr => decodeTiff_nested tb F buffered h cnt r' e W hsmall w4 hroot4 hrootW hr,
+  ⟨fun r' e hr => let hn := decodeTiff_nested tb F buffered h cnt r' e W hsmall w4 hroot4 hrootW hr; ⟨hn.1, hn.2.1⟩,
    fun r' e hr => decodeJPEGIfd_nested tb F buffered h cnt r' e W hsmall w hroot hrootW hr,
    fun r' e hr => decodeIfd_nested tb F (F.drop h.firstIfd) buffered h cnt r' e W hsmall rfl hfi w hroot hrootW hr⟩
 
